@@ -28,8 +28,10 @@ func (h *hist) kindOf(nonce uint64) string {
 		return "token"
 	case 3, 4, 5:
 		return "oset"
-	case 6, 7:
+	case 6:
 		return "call"
+	case 7:
+		return "callre" // bridge call whose callback contract re-enters executeClaim for the same nonce
 	default:
 		return "fx"
 	}
@@ -186,6 +188,12 @@ func generate(h *hist, r *lib.Rand, idx int) {
 			}
 			if r.Chance(4) {
 				o.Bridger = spareBridger + r.Pick(4) // a bridger of nobody (or a stale one)
+			}
+			if r.Chance(5) {
+				o.Bridger = id // the bridger the oracle bonded with, whatever it is registered with now
+			}
+			if o.CKind == "callre" {
+				h.apply(Op{Kind: "install", Nonce: nonce})
 			}
 			if o.CKind == "oset" {
 				for _, m := range online {
@@ -443,6 +451,23 @@ func scripted() []scenario {
 				{Kind: "exec_evm", Nonce: 9},
 			},
 			Check: func(h *hist, rep *lib.Report) {},
+		},
+		{
+			// the callback contract of a parked bridge call re-enters executeClaim(chain, same nonce) while it is executed
+			Name: "reentrant-execute", Module: "eth",
+			Ops: []Op{
+				{Kind: "gov", List: []int{0, 1}},
+				{Kind: "bond", Oracle: 0, Bridger: 0, Ext: 0, Stake: 30_000},
+				{Kind: "bond", Oracle: 1, Bridger: 1, Ext: 1, Stake: 10_000},
+				{Kind: "install", Nonce: 1}, {Kind: "install", Nonce: 2},
+				vote(0, 1, "callre", 0), vote(0, 2, "callre", 0),
+				{Kind: "exec_evm", Nonce: 1}, {Kind: "exec", Nonce: 2}, {Kind: "exec_evm", Nonce: 1}, {Kind: "exec_evm", Nonce: 2},
+			},
+			Check: func(h *hist, rep *lib.Report) {
+				if h.handlerRuns(1) != 1 || h.handlerRuns(2) != 1 {
+					note(rep, fmt.Sprintf("re-entrant callback scenario: callbacks ran %d and %d times (expected 1 and 1)", h.handlerRuns(1), h.handlerRuns(2)))
+				}
+			},
 		},
 		{
 			// slashed oracle cannot vote; votes of an oracle that left (record deleted) count nothing
